@@ -15,7 +15,7 @@ TNext == l <= Len(Trace) /\ l' = l + 1
 TSpec == TInit /\ [][TNext]_l
 
 Step == Trace[l - 1]
-KnownFamily(r) == r.fam \in {"jsonschema", "openapi", "cue", "pipeline", "passes", "veneers"}
+KnownFamily(r) == r.fam \in {"jsonschema", "openapi", "cue", "pipeline", "passes", "veneers", "sequences", "parameters"}
 V(r) == Violated(r) \cup (IF KnownFamily(r) THEN {} ELSE {"outside-universe"})
 
 Verdict == l = 1 \/ V(Step) = {} \/
